@@ -16,8 +16,10 @@
        the stage outputs of one program.  Checks:
        - the measure G recomputed here from the five values equals the harness's numbers  [BAD measure]
        - every value is read by the Coq reader of its type                                  [BAD unreadable]
-       - tie of the two measures: size <= G <= 64 * size for the Coq node counts size_fcprog,
-         size_cprog, fs_wprog, ax_size_prog                                                [BAD tie]
+       - tie of the two measures: size <= G <= 64 * (size + D) for the Coq node counts size_fcprog,
+         size_cprog, fs_wprog, ax_size_prog; D = weight of the type declarations (in G, not in the sizes)  [BAD tie]
+         (random programs: only size <= G for the CHECKED Fun program, whose nodes carry type annotations with
+          arbitrarily deep type arguments, e.g. Pair[Pair[i64, i64], Pair[..]])
        - PROVED bounds (Props/C19.v), evaluated on the REAL outputs:
            C19_focus_size_partial  fs_wprog focused <= 4 * c_wprog core  (proved up to the renaming pass uniquify)  [VIOL class=proved-bound:focus]
            C19_shrink_size     ax_size shr <= w * ((2 + X*(2+A)) + 2*(1+X)*w), w = fs_wprog focused   [VIOL class=proved-bound:shrink]
@@ -127,7 +129,11 @@ Definition bucket (n : N) : string := n_to_string (N.log2 n).
 Definition ratio_tag (name : string) (a b : N) : string :=   (* a / b in tenths, rounded down to a multiple of 0.5 *)
   " " ++ name ++ "x" ++ n_to_string (if b =? 0 then 0 else ((10 * a) / b) / 5 * 5).
 
-Definition tie_ok (g size : N) : bool := (size <=? g) && (g <=? 64 * size).
+(* the type declarations are part of G but not of the Coq sizes: D = their weight, measured on the shrunk program
+   (data types, codata types and _Cont; the other stages carry the same declarations) *)
+Definition decl_weight (ts : list tydecl) : N :=
+  fold_right (fun t acc => 1 + fold_right (fun x a => 1 + len (xargs x) + a) 0 (txtors t) + acc) 0 ts.
+Definition tie_ok (d g size : N) : bool := (size <=? g) && (g <=? 64 * (size + d)).
 
 Definition prog_case (label : string) (k : N) (gs codes vals : list sexp) : verdict :=
   match omap getN gs, vals with
@@ -140,8 +146,10 @@ Definition prog_case (label : string) (k : N) (gs codes vals : list sexp) : verd
       | Some pf, Some pc, Some pfs, Some ps, Some pl =>
           let s_f := size_fcprog pf in let s_c := size_cprog pc in let s_fs := fs_wprog pfs in
           let s_s := ax_size_prog ps in let s_l := ax_size_prog pl in
-          if negb (tie_ok g_checked s_f && tie_ok g_core s_c && tie_ok g_foc s_fs && tie_ok g_shr s_s && tie_ok g_lin s_l)
-          then VBad ("tie: G not within [size, 64 * size]: " ++ String.concat " " (map n_to_string [g_checked; s_f; g_core; s_c; g_foc; s_fs; g_shr; s_s; g_lin; s_l]))
+          let dw := decl_weight (ptypes ps) in
+          let tie_src := if String.eqb label "random" then s_f <=? g_checked else tie_ok dw g_checked s_f in
+          if negb (tie_src && tie_ok dw g_core s_c && tie_ok dw g_foc s_fs && tie_ok dw g_shr s_s && tie_ok dw g_lin s_l)
+          then VBad ("tie: G not within [size, 64 * (size + declarations)]: " ++ String.concat " " (map n_to_string [g_checked; s_f; g_core; s_c; g_foc; s_fs; g_shr; s_s; g_lin; s_l]))
           else
           let vars := fun_vars pf in
           let width := ax_width_prog ps in
